@@ -97,9 +97,11 @@ func (i ReflectInspector) inspect(node any, key string) any {
 			}
 		}
 	case reflect.Struct:
-		f := v.FieldByName(key)
-		if f.IsValid() && f.CanInterface() {
-			return f.Interface()
+		if sf, ok := v.Type().FieldByName(key); ok {
+			// FieldByName panics when the field is promoted through a nil embedded pointer.
+			if f, err := v.FieldByIndexErr(sf.Index); err == nil && f.IsValid() && f.CanInterface() {
+				return f.Interface()
+			}
 		}
 	case reflect.Slice:
 		if bytes, ok := node.([]byte); ok {
